@@ -175,7 +175,52 @@ func (ms *ModSet) checkHistory(stdout string) (string, string) {
 // invalidVariant derives an ill-formed set from a valid one (one illegal thing, expected to be rejected).
 func invalidVariant(ms *ModSet, r *prng.R) (*simdisk.Tree, string) {
 	t := ms.Tree.Clone()
-	kind := r.Intn(5)
+	kind := r.Intn(7)
+	if kind >= 5 {
+		// a selective import that lists a name the imported module does not declare itself but only imports
+		// (re-export), or a private name of it: the root is replaced by a minimal importer
+		type cand struct {
+			via  *gmModule
+			name string
+			use  string
+			what string
+		}
+		var cands []cand
+		for _, j := range ms.Mods[1:] {
+			for _, imp := range j.Imports {
+				if imp.Target <= 0 {
+					continue
+				}
+				k := ms.Mods[imp.Target]
+				vars, funcs := publicNamesOf(k)
+				listed := map[string]bool{}
+				for _, n := range imp.Names {
+					listed[n] = true
+				}
+				for _, v := range vars {
+					if len(imp.Names) == 0 || listed[v] {
+						cands = append(cands, cand{j, v, fmt.Sprintf("Die Zahl verboten ist %s plus 1.", v), "selective import of a name the module only imports (re-export of " + k.Path + ")"})
+					}
+				}
+				for _, f := range funcs {
+					if len(imp.Names) == 0 || listed[f.Name] {
+						cands = append(cands, cand{j, f.Name, f.Alias + ".", "selective import of a function the module only imports (re-export of " + k.Path + ")"})
+					}
+				}
+			}
+			for _, v := range j.Vars {
+				if !v.Public {
+					cands = append(cands, cand{j, v.Name, fmt.Sprintf("Die Zahl verboten ist %s plus 1.", v.Name), "selective import of a private name"})
+				}
+			}
+		}
+		if len(cands) > 0 {
+			c := prng.Pick(r, cands)
+			root := fmt.Sprintf("Binde \"aus\" ein.\nBinde %s aus \"%s\" ein.\n%s\n", c.name, strings.TrimSuffix(c.via.Path, ".ddp"), c.use)
+			t.Files[ms.Root] = []byte(root)
+			return t, c.what + " " + c.name
+		}
+	}
 	if kind <= 2 && len(ms.Invisible) > 0 {
 		inv := prng.Pick(r, ms.Invisible)
 		t.Files[ms.Root] = append(append([]byte{}, t.Files[ms.Root]...), []byte(inv.Use+"\n")...)
